@@ -6,8 +6,8 @@ import tie
 RULE = ("programs generated from a plan: every chain of depth <= 3 (quick) / <= 4 (thorough) over {bare block, if-true, "
         "if-false-else, else-if, while, for over list/string/object, call} with break/continue/return/nothing in the innermost "
         "body, every truth assignment of 3-condition if-chains, loop bodies that mutate the iterated container; the trace is "
-        "predicted by a plan interpreter in the harness (no model involved); non-trivial = distinct (chain, jump) with a "
-        "distinct predicted trace")
+        "predicted by a plan interpreter in the harness (no model involved); non-trivial = distinct predicted (trace, status): "
+        "plans that are predicted to behave alike count once")
 ASSUMPTIONS = ["conditions are instrumented through a user function t(tag, b) that prints its tag, so evaluation order is observable"]
 
 KINDS = ["block", "ift", "ife", "elif", "while", "forl", "fors", "foro", "call"]
@@ -297,7 +297,7 @@ def run(ctx, model_ok):
         impl, dis = tie.run(ctx, srcs, label, model_ok, project=tie.proj_out_status)
         bad = []
         for (key, src, exp_out, exp_st), r in zip(cs, impl):
-            ctx.nontrivial((key, exp_out))
+            ctx.nontrivial((exp_out, exp_st))          # distinct predicted behaviours (many plans share one)
             ctx.dist("predicted:" + exp_st)
             ok, why = oracle_one(ctx, src, r, (exp_out, exp_st))
             if not ok:
